@@ -19,15 +19,35 @@ def run(tier):
     facts = F.load("all")
     set_claim(res, facts)
     monotone(res, facts)
-    ready(res, facts, "C17.R4")
-    order(res, facts, S.entry_points(facts), "C17.R4")
+    if not semantic_build(res, facts, S.entry_points(facts), ("C17.R4", "C17.R2")):
+        ready(res, facts, "C17.R4")
+        order(res, facts, S.entry_points(facts), "C17.R4")
     res.floor("C17.R1", 4)
     res.floor("C17.R2", 3)
-    res.floor("C17.R4", 2 + 8)
+    res.floor("C17.R4", 8)
     res.floor("C17.R5", 4)
     res.explanation = ("abstract interpretation of PasetoBuilder::set_claim over {insert -> new, insert -> duplicate} x {key = nbf, other} and of verify_ready_to_build over {acknowledged} x {duplicate flag}; "
                        "who-writes analysis of the flag and the key set over the whole crate (monotonicity); CFG dominance of the duplicate check before any encryption / signing in the 8 build methods")
     return res
+
+
+def semantic_build(res, facts, entries, rules):
+    """the 8 build methods decided by their contract (rules/layers.py: interpreted with the generic builder summarised): duplicate flag set ->
+    Err(Duplicate(recorded key)) before anything is built; exp removed iff acknowledged; flags persist.  True when all 8 were decided."""
+    from .. import layers
+    lay = layers.analyse(facts, entries)
+    prod = S.select(entries, "prelude", "producer")
+    if not prod or any(lay.get(e.id, (None, None))[0] is None for e in prod):
+        return False
+    for e in prod:
+        for f in lay[e.id][0]:
+            if f.rule in rules:
+                res.oblige(f.ok)
+                if f.ok:
+                    res.inst(f.rule, f.desc)
+                else:
+                    res.violate(f.rule, f.where, f.construct, f.msg, file=f.file, line=f.line)
+    return True
 
 
 def set_claim(res, facts):
